@@ -336,6 +336,45 @@ def run(ctx):
                 ctx.bad('C17.4-consuming-lookup', 'router', 'the reply is not sent on the sender removed from the map', ctx.where(Br, rrem[0][0]),
                         key='TABLE:%s:send-not-on-removed' % ROUTE)
 
+    # only a message (SEND with a payload) is a reply: signals addressed to a reply pid leave the registration alone
+    ctx.rule('C17.4-only-messages-consume', 'the router takes a registration out of the table only for a SEND: an EXIT or MONITOR_P_EXIT addressed to the reply pid of an outstanding call '
+             '(or a REG_SEND) must not consume the entry - the call would "complete" with the exit reason and its real reply find nothing', floor=1)
+    if Br is not None and rrem:
+        CMv = [v['n'] for v in ctx.F.adts.get('edp_client::control::ControlMessage', {}).get('variants', [])]
+        from ..core import dominating_edges as _de17
+        for rb, rt in rrem:
+            arms, via = set(), None
+            inter = []
+            for (src, vals, dst) in _de17(Br, rb):
+                sd = Br.switch_on_discr(src)
+                if not sd or 'else' in vals or len(vals) != 1:
+                    continue
+                ty_ = str(sd[1]).replace('&', '')
+                if ty_ == 'edp_client::control::ControlMessage':
+                    arms = {CMv[vals[0]]}
+                elif ty_.startswith('edp_node::') or ty_.startswith('edp_client::'):
+                    inter.append((ty_, vals[0]))
+            if not arms and inter:
+                # the arm was chosen by an intermediate value built per control message: the messages that build that variant
+                ty_, vi_ = inter[-1]
+                via = '%s variant %d' % (ty_.rsplit('::', 1)[-1], vi_)
+                for lb, j_, st_ in Br.stmts():
+                    if st_['k'] == '=' and st_['rv']['k'] == 'agg' and str(st_['rv'].get('adt')) == ty_ and st_['rv'].get('vi') == vi_ and lb in Br.live_blocks():
+                        got = None
+                        for (src, vals, dst) in _de17(Br, lb):
+                            sd = Br.switch_on_discr(src)
+                            if sd and str(sd[1]).replace('&', '') == 'edp_client::control::ControlMessage' and 'else' not in vals and len(vals) == 1:
+                                got = CMv[vals[0]]
+                        arms.add(got or '?')
+            if arms and arms <= {'Send', 'SendSender', 'SendTt', 'SendSenderTt', 'AliasSend', 'AliasSendTt'}:
+                ctx.ok('C17.4-only-messages-consume', 'router:remove', 'the removal is reached for %s only%s' % (sorted(arms), (' (through %s)' % via) if via else ''), ctx.where(Br, rb))
+            elif not arms:
+                ctx.bad('C17.4-only-messages-consume', 'router:remove', 'the removal from the table of outstanding calls is not confined to the arm of a SEND: whatever control message names the reply pid as its recipient '
+                        '(an EXIT, a MONITOR_P_EXIT) completes the call with its own content', ctx.where(Br, rb), key='TABLE:%s:remove-not-confined-to-send' % ROUTE)
+            else:
+                ctx.bad('C17.4-only-messages-consume', 'router:remove', 'the removal from the table of outstanding calls is also reached for %s: such a message addressed to a reply pid completes the call with its own content, '
+                        'and the real reply finds nothing' % sorted(a for a in arms if not a.startswith('Send')), ctx.where(Br, rb), key='TABLE:%s:remove-not-confined-to-send' % ROUTE)
+
     # (c) the whole allocator discipline (lock, one store per path, wrap-around serial, creation): rules of C16 re-run
     ctx.rule('C17.2-allocator-discipline', 'the reply pid of a call is unique among outstanding calls only if PidAllocator::allocate never hands out a pid twice, also under concurrent callers: rules of C16 re-run here', floor=20)
     from ..order import SubCtx as _Sub
